@@ -5,6 +5,7 @@ import vlib
 from props import c01, dce
 from props import gocomp
 from props import namecat
+from props import gopp
 
 def classify(detail):
     """type classes in an error detail, so that a finding is keyed by its shape, not by names"""
@@ -37,7 +38,7 @@ def _replay_is_names(path):
 
 def run(ctx):
     ctx.extract()
-    mods = [m for m in ["GomlVerif.Props.C02", dce.PROP_MODULE, gocomp.PROP_MODULE] if os.path.exists(os.path.join(vlib.LEAN, m.replace(".", "/") + ".lean"))]
+    mods = [m for m in ["GomlVerif.Props.C02", dce.PROP_MODULE, gocomp.PROP_MODULE, gopp.PROP_MODULE] if os.path.exists(os.path.join(vlib.LEAN, m.replace(".", "/") + ".lean"))]
     ctx.build_lean(mods)
     if not ctx.build_harness():
         return ctx.finish("translation_validation", {"programs": 0, "disagreements_checked": 0, "samples": []}, [], "lake build")
@@ -116,10 +117,12 @@ def run(ctx):
     }
     # ---- the Go back end (go/compile.rs): model = implementation, go_file does not panic
     gocomp.add_to(ctx, "C02", cov)
+    # ---- the Go printer (pprint/go_pprint.rs): model = implementation byte for byte; oracle rows go-printer-model
+    gopp.add_to(ctx, "C02", cov)
     ctx.assumptions += [
         "Go.Check (lean/GomlVerif/Model/GoCheck.lean) is our reading of the Go rules for the emitted subset; it accepts the corpus programs real Go accepted and rejects 058 as real Go did",
         "Go.Check judges the goast; the pretty-printed text (go_pprint.rs) is tied to that AST by parsing it back with harness/src/goparse.rs (our reading of Go's lexical grammar: automatic semicolon insertion, operator precedence, composite-literal restriction)",
         "extern \"go\" items are typed from their declared goml signature only",
     ]
-    tb = ["Lean 4 (compiled Go.Check)", "harness/src/godump.rs", "tools/props/c02.py"]
+    tb = ["Lean 4 (compiled Go.Check)", "harness/src/godump.rs", "tools/props/c02.py", "harness/src/gopp.rs", "tools/props/gopp.py"]
     return ctx.finish("translation_validation", cov, tb, "gomlmodel gocheck")
